@@ -6,6 +6,7 @@ import Driver.Keys
 import Driver.Cli
 import Driver.Format
 import Driver.Stack
+import Driver.CompTable
 open Lean Driver MlaModel
 
 
@@ -41,6 +42,8 @@ def dispatch (j : Json) : Json :=
   | "stack.run" => cmdStackRun j
   | "stack.unwrap" => cmdStackUnwrap j
   | "stack.header" => cmdStackHeader j
+  | "comp.trace" => cmdCompTrace j
+  | "comp.failsafe" => cmdCompFailsafe j
   | c => Json.mkObj [("err", Json.str ("unknown-cmd:" ++ c))]
 
 partial def loop (h : IO.FS.Stream) (out : IO.FS.Stream) : IO Unit := do
